@@ -34,7 +34,7 @@ func Run(r *report.Run) int {
 			continue // fault-free commit / rollback belong to C01
 		}
 		planned++
-		fp := fmt.Sprintf("%s:%s:%s", res.Shape, res.Site, res.Form)
+		fp := fmt.Sprintf("%s#%d:%s:%s", res.Shape, res.Prog, res.Site, res.Form)
 		if res.Fired == 0 {
 			r.Inconclusive("site-not-reached")
 			r.Eval(fp, false)
